@@ -62,3 +62,8 @@ package definition
 //@ assigns St, InitCalls, Failed
 //@ ensures [init-done] St == store(old(St), CurName, 4) && InitCalls == store(old(InitCalls), CurName, old(InitCalls[CurName]) + 1)
 //@ ensures [failure-recorded] Failed == (old(Failed) || result != nil)
+
+// A component's custom name is a pure function of the component (A-CALLBACK).
+//@ method (NamingComponent).Naming
+//@ pure
+//@ assigns nothing
